@@ -128,9 +128,9 @@ C["C01"] = {
 C["C02"] = {
  "pkgs": ["."],
  "technique": "differential symbolic execution of RetainMessage/Messages against a map model filtered by the reference matcher",
- "quick": {"harnesses": [H("VerifC02Messages", F=3, T=2, H=2)], "budget_s": 300, "witnesses": 8,
+ "quick": {"harnesses": [H("VerifC02Messages", F=3, T=2, H=2), H("VerifC02Messages", F=2, T=2, H=2, SUBS=1)], "budget_s": 300, "witnesses": 8,
    "bounds": "history of 2 retain/clear operations on topics of 1..2 bytes over {/ $ a b}, then every valid filter of 1..3 bytes over {/ + # $ a b}; every iteration order of maps with <= 3 entries"},
- "thorough": {"harnesses": [H("VerifC02Messages", F=4, T=3, H=3)], "budget_s": 3000, "witnesses": 16,
+ "thorough": {"harnesses": [H("VerifC02Messages", F=4, T=3, H=3), H("VerifC02Messages", F=3, T=2, H=3, SUBS=1)], "budget_s": 3000, "witnesses": 16,
    "bounds": "3 operations, topics up to 3 bytes, filters up to 4 bytes"},
  "outside_bounds": ["more than 2 distinct retained topics", "longer histories"],
  "stubs": ["sync.RWMutex: lock tracker"],
@@ -164,9 +164,9 @@ C["C37"] = {
 C["C10"] = {
  "pkgs": ["."],
  "technique": "one-step inductive symbolic execution: NextPacketID from an arbitrary in-flight state; handlers with a symbolic client packet id against a broker-created outbound record",
- "quick": {"harnesses": [H("VerifC10Alloc", M=3), H("VerifC10Cross", VER=5), H("VerifC10Cross", VER=4), H("VerifC10Reverse")], "budget_s": 200, "witnesses": 8,
+ "quick": {"harnesses": [H("VerifC10Alloc", M=3), H("VerifC10AllocVsInbound", M=3), H("VerifC10Cross", VER=5), H("VerifC10Cross", VER=4), H("VerifC10Reverse")], "budget_s": 200, "witnesses": 8,
    "bounds": "allocation: maximumPacketID = 3, every subset of ids in use, every cursor; cross: one outbound QoS 1/2 record, client PUBLISH/PUBREL/SUBSCRIBE/UNSUBSCRIBE with any 16-bit id; reverse: PUBACK/PUBREC/PUBCOMP against an open inbound QoS 2 exchange"},
- "thorough": {"harnesses": [H("VerifC10Alloc", M=7), H("VerifC10Cross", VER=5), H("VerifC10Cross", VER=4), H("VerifC10Reverse")], "budget_s": 600, "witnesses": 16, "bounds": "as quick with maximumPacketID = 7"},
+ "thorough": {"harnesses": [H("VerifC10Alloc", M=7), H("VerifC10AllocVsInbound", M=5), H("VerifC10Cross", VER=5), H("VerifC10Cross", VER=4), H("VerifC10Reverse")], "budget_s": 600, "witnesses": 16, "bounds": "as quick with maximumPacketID = 7"},
  "outside_bounds": ["the real identifier limit 65535 (differs from M only in the constant)", "more than one outbound record in the cross-contamination step"],
  "stubs": SRV_STUBS, "trusted_base": SRV_TB,
 }
@@ -184,10 +184,10 @@ C["C11"] = {
 C["C08"] = {
  "pkgs": ["."],
  "technique": "bounded symbolic execution of processPublish/processPubrel for 1..3 transmissions of the same QoS 2 PUBLISH, symbolic packet id; subscriber and publisher transcripts parsed by the reference decoder",
- "quick": {"harnesses": [H("VerifC08Once", VER=5, RETX=2), H("VerifC08Once", VER=4, RETX=2)], "budget_s": 200, "witnesses": 6,
+ "quick": {"harnesses": [H("VerifC08Once", VER=5, RETX=2), H("VerifC08Once", VER=4, RETX=2), H("VerifC08Reconnect", VER=5, RETX=1), H("VerifC08Reconnect", VER=4, RETX=1)], "budget_s": 200, "witnesses": 6,
    "bounds": "1..3 transmissions before PUBREL, any 16-bit id, one subscriber"},
- "thorough": {"harnesses": [H("VerifC08Once", VER=5, RETX=4), H("VerifC08Once", VER=4, RETX=4)], "budget_s": 600, "witnesses": 12, "bounds": "1..5 transmissions"},
- "outside_bounds": ["retransmission after a reconnect (the in-flight clone is C09/C14's subject)", "several QoS 2 exchanges interleaved"],
+ "thorough": {"harnesses": [H("VerifC08Once", VER=5, RETX=4), H("VerifC08Once", VER=4, RETX=4), H("VerifC08Reconnect", VER=5, RETX=3), H("VerifC08Reconnect", VER=4, RETX=3)], "budget_s": 600, "witnesses": 12, "bounds": "1..5 transmissions"},
+ "outside_bounds": ["more than one reconnect", "several QoS 2 exchanges interleaved"],
  "stubs": SRV_STUBS, "trusted_base": SRV_TB,
 }
 
@@ -205,9 +205,9 @@ C["C04"] = {
 C["C05"] = {
  "pkgs": ["."],
  "technique": "bounded symbolic execution of processPublish->retainMessage and processSubscribe->publishRetainedToClient over solver-chosen publish histories, against a last-writer-wins model",
- "quick": {"harnesses": [H("VerifC05Retained", H=2)], "budget_s": 300, "witnesses": 8, "perm_limit": 3,
+ "quick": {"harnesses": [H("VerifC05Retained", H=2), H("VerifC05Retained", H=2, NEST=1)], "budget_s": 300, "witnesses": 8, "perm_limit": 3,
    "bounds": "2 publishes to two topics (retain flag, empty/non-empty payload symbolic), RetainAvailable 0/1, then SUBSCRIBE a/+ with Retain Handling 0..2, shared or not, first-time or repeated, with or without subscription identifier"},
- "thorough": {"harnesses": [H("VerifC05Retained", H=4)], "budget_s": 1800, "witnesses": 16, "perm_limit": 3, "bounds": "as quick with 4 publishes"},
+ "thorough": {"harnesses": [H("VerifC05Retained", H=4), H("VerifC05Retained", H=3, NEST=1)], "budget_s": 1800, "witnesses": 16, "perm_limit": 3, "bounds": "as quick with 4 publishes"},
  "outside_bounds": ["more than two retained topics", "message expiry (C25)"],
  "stubs": SRV_STUBS, "trusted_base": SRV_TB,
 }
@@ -225,10 +225,41 @@ C["C06"] = {
 C["C12"] = {
  "pkgs": ["."],
  "technique": "bounded symbolic execution of publishToClient deferral, the processPacket deferred-send tail, Inflight.GetAll/NextImmediate and ResendInflightMessages; order read off the wire; map iteration orders as decisions",
- "quick": {"harnesses": [H("VerifC12Order", MSGS=3), H("VerifC12Order", MSGS=3, WRAP=1), H("VerifC12Resend", MSGS=3), H("VerifC12Resend", MSGS=3, WRAP=1)], "budget_s": 300, "witnesses": 8, "perm_limit": 3,
+ "quick": {"harnesses": [H("VerifC12Order", MSGS=3), H("VerifC12Order", MSGS=3, WRAP=1), H("VerifC12Resend", MSGS=3), H("VerifC12Resend", MSGS=3, WRAP=1), H("VerifC12ReconnectHeld", MSGS=3)], "budget_s": 300, "witnesses": 8, "perm_limit": 3,
    "bounds": "3 QoS 1 messages from one publisher on one topic, client Receive Maximum 1..2, prompt acknowledgements; resend after one reconnect; packet-id cursor near wrap-around (maximum id 3-4); every order of maps with <= 3 entries"},
- "thorough": {"harnesses": [H("VerifC12Order", MSGS=4), H("VerifC12Order", MSGS=3, WRAP=1), H("VerifC12Resend", MSGS=3), H("VerifC12Resend", MSGS=3, WRAP=1)], "budget_s": 1800, "witnesses": 16, "perm_limit": 3, "bounds": "as quick, 4 messages for the flow-control order"},
+ "thorough": {"harnesses": [H("VerifC12Order", MSGS=4), H("VerifC12Order", MSGS=3, WRAP=1), H("VerifC12Resend", MSGS=3), H("VerifC12Resend", MSGS=3, WRAP=1), H("VerifC12ReconnectHeld", MSGS=4)], "budget_s": 1800, "witnesses": 16, "perm_limit": 3, "bounds": "as quick, 4 messages for the flow-control order"},
  "outside_bounds": ["clock advancing between messages (one symbolic second per path)", "QoS 2 flows, several publishers"],
+ "stubs": SRV_STUBS, "trusted_base": SRV_TB,
+}
+
+# ---------------- C09 ----------------
+C["C09"] = {
+ "pkgs": ["."],
+ "technique": "bounded symbolic execution of delivery, acknowledgement steps, disconnect and session takeover (inheritClientSession, Inflight.Clone, ResendInflightMessages); resend transcript parsed by the reference decoder and compared with a client-side model",
+ "quick": {"harnesses": [H("VerifC09Redeliver", MSGS=2, ACKS=2)], "budget_s": 300, "witnesses": 8, "perm_limit": 1,
+   "bounds": "2 messages with symbolic QoS 1/2, client Receive Maximum 1..2, 0..2 acknowledgement steps (PUBACK / PUBREC / PUBCOMP), one reconnect with Clean Start 0"},
+ "thorough": {"harnesses": [H("VerifC09Redeliver", MSGS=3, ACKS=4)], "budget_s": 1800, "witnesses": 16, "perm_limit": 2, "bounds": "3 messages, 0..4 acknowledgement steps"},
+ "outside_bounds": ["message expiry during the session (C25)", "several reconnections", "map order of the harness's own model (perm_limit 1)"],
+ "stubs": SRV_STUBS, "trusted_base": SRV_TB,
+}
+# ---------------- C24 ----------------
+C["C24"] = {
+ "pkgs": ["."],
+ "technique": "bounded symbolic execution of publishToClient/OutboundTopicAliases.Set with drops and deferrals as solver choices, and of processPublish/InboundTopicAliases.Set; alias bindings tracked on the wire by the reference decoder",
+ "quick": {"harnesses": [H("VerifC24Outbound", MSGS=2), H("VerifC24Resend"), H("VerifC24Inbound", MSGS=2)], "budget_s": 400, "witnesses": 8, "perm_limit": 1,
+   "bounds": "outbound: client Topic Alias Maximum 0..2, Receive Maximum 1..2, outbound queue capacity 1..2, 2 messages on topics from {x,y,z} with QoS 0/1, write loop catching up or not after each; resend after reconnect with the first message acknowledged or not; inbound: broker maximum 0..2, 2 publishes with alias 0..3 and topic from {'',x,y}"},
+ "thorough": {"harnesses": [H("VerifC24Outbound", MSGS=3), H("VerifC24Resend"), H("VerifC24Inbound", MSGS=3)], "budget_s": 2400, "witnesses": 16, "perm_limit": 1, "bounds": "as quick with 3 messages"},
+ "outside_bounds": ["alias maxima above 2", "longer sequences"],
+ "stubs": SRV_STUBS, "trusted_base": SRV_TB,
+}
+# ---------------- C25 ----------------
+C["C25"] = {
+ "pkgs": ["."],
+ "technique": "symbolic execution of minimum, processPublish expiry computation, clearExpiredRetainedMessages, clearExpiredInflights and WritePacket's interval rewrite with intervals, server maximum and clock readings as solver variables (64-bit bit-vector arithmetic)",
+ "quick": {"harnesses": [H("VerifC25Minimum"), H("VerifC25Retained", VER=5), H("VerifC25Retained", VER=4), H("VerifC25Delivered"), H("VerifC25Deferred")], "budget_s": 300, "witnesses": 8, "perm_limit": 1,
+   "bounds": "publisher interval and server maximum symbolic in [0, 2^20), housekeeping time symbolic up to 2^21 s after publish, one retained / one delivered / one deferred message"},
+ "thorough": {"harnesses": [H("VerifC25Minimum"), H("VerifC25Retained", VER=5), H("VerifC25Retained", VER=4), H("VerifC25Retained", VER=3), H("VerifC25Delivered"), H("VerifC25Deferred")], "budget_s": 600, "witnesses": 16, "perm_limit": 1, "bounds": "as quick"},
+ "outside_bounds": ["intervals >= 2^20 s (same arithmetic, 64-bit, no overflow below 2^40)", "'after a restart' is decided with the storage boundary in C20", "the clock does not advance inside WritePacket (one symbolic second per path)"],
  "stubs": SRV_STUBS, "trusted_base": SRV_TB,
 }
 
